@@ -122,6 +122,7 @@ TOML_NATIVES = frozenset({"datetime", "date", "time"})
 @dataclasses.dataclass(frozen=True)
 class Ctx:
     nt_as_dict: bool = False          # option of the current holder
+    nt_engine_field: object = None    # field option serialize= / deserialize= 'as_dict' (True) | 'as_list' (False)
     natives: frozenset = frozenset()  # scalar kinds left unconverted (format dialects)
     drop_none: bool = False           # TOML: null-valued dataclass fields dropped
     dnatives: frozenset = frozenset()  # scalar kinds passed through on decode
@@ -220,8 +221,14 @@ class Ref:
         return opts["aliases"].get(f["n"])
 
     # ================================================================ encode
+    # element positions of these kinds are built by pack_collection / unpack_collection, which hand the elements
+    # a field context WITHOUT the field's metadata: a per-field NamedTuple engine does not reach into them
+    _COLLECTION_KINDS = ("seq", "map", "counter", "chainmap")
+
     def enc(self, t, v, ctx=Ctx()):
         k = t[0]
+        if ctx.nt_engine_field is not None and k in self._COLLECTION_KINDS:
+            ctx = dataclasses.replace(ctx, nt_engine_field=None)
         return getattr(self, "_e_" + k)(t, v, ctx)
 
     def _e_any(self, t, v, ctx):
@@ -310,7 +317,7 @@ class Ref:
 
     def _e_nt(self, t, v, ctx):
         fields = self.fam.defs[t[1]]["fields"]
-        if ctx.nt_as_dict:
+        if (ctx.nt_as_dict if ctx.nt_engine_field is None else ctx.nt_engine_field):
             return {f["n"]: self.enc(f["t"], x, ctx) for f, x in zip(fields, v)}
         return [self.enc(f["t"], x, ctx) for f, x in zip(fields, v)]
 
@@ -327,7 +334,7 @@ class Ref:
         df = self.fam.defs[name]
         # a subclass instance in a parent-typed position is serialized by its own class
         opts = self.dc_opts(name, ctx)
-        inner = dataclasses.replace(ctx, nt_as_dict=opts["nt_as_dict"])
+        inner = dataclasses.replace(ctx, nt_as_dict=opts["nt_as_dict"], nt_engine_field=None)
         saved = dict(self.tv_bind)
         if type_args is not None and df.get("generic"):
             self.tv_bind.update(dict(zip(df["generic"], type_args)))
@@ -358,13 +365,30 @@ class Ref:
                 if raw is None and self.field_could_be_none(name, f):
                     out[key] = None
                 else:
-                    out[key] = self.enc(f["t"], raw, inner)
+                    out[key] = self.enc(f["t"], raw, self._field_ctx(inner, f, "serialize"))
             return out
         finally:
             self.tv_bind = saved
             self._cls_stack.pop()
 
+    @staticmethod
+    def _field_ctx(ctx, f, direction):
+        """field option serialize= / deserialize= 'as_dict' | 'as_list': the NamedTuple engine of this field."""
+        eng = (f.get("meta") or {}).get(direction)
+        if eng in ("'as_dict'", "'as_list'"):
+            return dataclasses.replace(ctx, nt_engine_field=eng == "'as_dict'")
+        return ctx
+
     def _owner(self, name, fname):
+        """class in which the (effective) field definition lives."""
+        eff = [f for f in self.fam.dc_fields(name) if f["n"] == fname]
+        if eff:
+            for cname, d in self.fam.defs.items():
+                if d.get("k") == "dc" and any(f is eff[0] for f in d["fields"]):
+                    return cname
+        return self._owner_by_bases(name, fname)
+
+    def _owner_by_bases(self, name, fname):
         """class in which the (effective) field definition lives."""
         d = self.fam.defs[name]
         for f in d["fields"]:
@@ -373,7 +397,7 @@ class Ref:
         for b in d.get("bases", ()):
             bname = b.split("[")[0]
             if bname in self.fam.defs and self.fam.defs[bname]["k"] == "dc":
-                o = self._owner(bname, fname)
+                o = self._owner_by_bases(bname, fname)
                 if o:
                     return o
         return None
@@ -477,6 +501,8 @@ class Ref:
 
     # ================================================================ decode
     def dec(self, t, d, ctx=Ctx()):
+        if ctx.nt_engine_field is not None and t[0] in self._COLLECTION_KINDS:
+            ctx = dataclasses.replace(ctx, nt_engine_field=None)
         return getattr(self, "_d_" + t[0])(t, d, ctx)
 
     @staticmethod
@@ -671,7 +697,7 @@ class Ref:
         fields = df["fields"]
         has_defaults = any(f.get("dseed") is not None for f in fields)
         vals = []
-        if ctx.nt_as_dict:
+        if (ctx.nt_as_dict if ctx.nt_engine_field is None else ctx.nt_engine_field):
             for f in fields:
                 vals.append(self._at(f["t"], d, f["n"], ctx))
             return self._call(cls, *vals)
@@ -738,7 +764,7 @@ class Ref:
         df = self.fam.defs[name]
         cls = self.fam.get(name)
         opts = self.dc_opts(name, ctx)
-        inner = dataclasses.replace(ctx, nt_as_dict=opts["nt_as_dict"])
+        inner = dataclasses.replace(ctx, nt_as_dict=opts["nt_as_dict"], nt_engine_field=None)
         fields = [f for f in self.fam.dc_fields(name) if f.get("init") is not False]
         saved = dict(self.tv_bind)
         if type_args is not None and df.get("generic"):
@@ -775,7 +801,7 @@ class Ref:
                     kw[f["n"]] = None
                     continue
                 try:
-                    kw[f["n"]] = self.dec(f["t"], val, inner)
+                    kw[f["n"]] = self.dec(f["t"], val, self._field_ctx(inner, f, "deserialize"))
                 except RefError as e:
                     raise RefInvalid(name, f["n"], val, e)
             return self._call(cls, **kw)
